@@ -137,7 +137,9 @@ package tracer
 //@   modifies @h2state
 //@   ensures held[c.mu] && c.maxStreamID == maxStreamID
 //@   ensures forall id int :: has(c.streams, id) ==> wfStream(c.streams[id]) && id <= maxStreamID
+//@   ensures @kept forall id int :: old(has(c.streams, id)) && id <= maxStreamID ==> has(c.streams, id) && c.streams[id] == old(c.streams[id]) //# streams up to the announced id go on
 //@   loop 0: invariant held[c.mu] && c.streams == atpre(c.streams)
+//@           invariant forall id int :: atpre(has(c.streams, id)) && id <= maxStreamID ==> has(c.streams, id) && c.streams[id] == atpre(c.streams[id])
 //@           invariant forall id int :: has(c.streams, id) ==> wfStream(c.streams[id])
 //@           invariant forall id int :: has(c.streams, id) && rangeidx(id) < rangepos ==> id <= maxStreamID
 
@@ -192,12 +194,16 @@ package tracer
 //@   ensures @partial !result_1 && !h.broken ==> len(data) < old(h.expecting) - old(h.actual) && h.actual == old(h.actual) + len(data) && h.expecting == old(h.expecting)
 //@   ensures @wf !h.broken ==> wfSplitter(h)
 
+// h2S[h]: all bytes ever shown to splitter h, in order (ghost, defined by the assumed postcondition of trace)
+//@ ghost h2S: *http2FrameTracer -> string
+
 // trace: whatever bytes arrive in whatever chunks, the splitter keeps its invariant or marks
 // itself broken (after which it ignores everything); it never reads or slices out of range and
 // never alters the bytes it is shown.
 //@ func (*http2FrameTracer).trace
 //@   requires h != nil && (h.broken || wfSplitter(h)) && (len(data) > 0 ==> slicebase(data) != slicebase(h.prefix) && slicebase(data) != slicebase(h.prefaceBytes))
-//@   modifies @h2state, rdPos, wrOut, http2FrameTracer.*, http2.Framer.ReadMetaHeaders
+//@   modifies @h2state, rdPos, wrOut, http2FrameTracer.*, http2.Framer.ReadMetaHeaders, h2S
+//@   assume_ensures h2S == old(h2S)[h := old(h2S[h]) + old(bytes(data))] //# ghost bookkeeping: the byte stream seen by this splitter
 //@   ensures h.broken || wfSplitter(h)
 //@   loop 0: invariant !h.broken && wfSplitter(h) && (len(data) > 0 ==> slicebase(data) != slicebase(h.prefix) && slicebase(data) != slicebase(h.prefaceBytes))
 
@@ -207,7 +213,7 @@ package tracer
 //@    fieldaddr(c, readTracer).c == c && fieldaddr(c, writeTracer).c == c
 
 //@ frameset h2cancel: @h2state, rtmStopN, []*http2RetryWaitState, *[]*http2RetryWaitState
-//@ frameset h2conn: @h2cancel, rdPos, wrOut, http2FrameTracer.*, http2.Framer.ReadMetaHeaders, connN, connErr
+//@ frameset h2conn: @h2cancel, rdPos, wrOut, http2FrameTracer.*, http2.Framer.ReadMetaHeaders, connN, connErr, h2S
 
 //@ func (*http2RetryCollector).cancel
 //@   requires h != nil && h.collector != nil
@@ -222,10 +228,12 @@ package tracer
 //@   requires wfH2Conn(c) && !held[c.mu] && slicebase(data) != slicebase(fieldaddr(c, readTracer).prefix) && slicebase(data) != slicebase(fieldaddr(c, readTracer).prefaceBytes)
 //@   modifies @h2conn
 //@   ensures @passthrough n == connN[c.Conn] && err == connErr[c.Conn]
+//@   ensures @traced len(h2S[fieldaddr(c, readTracer)]) == old(len(h2S[fieldaddr(c, readTracer)])) + n //# all n bytes handed to the caller are traced, also when an error comes with them
 //@ func (*tracingHTTP2Conn).Write
 //@   requires wfH2Conn(c) && !held[c.mu] && slicebase(data) != slicebase(fieldaddr(c, writeTracer).prefix) && slicebase(data) != slicebase(fieldaddr(c, writeTracer).prefaceBytes)
 //@   modifies @h2conn
 //@   ensures @passthrough n == connN[c.Conn] && err == connErr[c.Conn]
+//@   ensures @traced h2S[fieldaddr(c, writeTracer)] == old(h2S[fieldaddr(c, writeTracer)]) + old(bytes(data)) //# all of the data is traced (before it is written)
 //@ func (*tracingHTTP2Conn).Close
 //@   requires wfH2Conn(c) && !held[c.mu]
 //@   modifies @h2conn
